@@ -5,8 +5,8 @@ import (
 	"fmt"
 	"math/rand"
 	"os"
-	"runtime"
 	"runtime/debug"
+	"runtime/metrics"
 	"time"
 
 	rv "verifh/refval"
@@ -90,14 +90,15 @@ func guarded(cfg watchCfg, c *Case, f func()) string {
 			return ""
 		default:
 		}
-		if spent < cfg.ratio*need {
+		for burst := time.Now(); spent < cfg.ratio*need && time.Since(burst) < 2*time.Millisecond; {
 			spent += one()
 		}
 		if time.Since(lastMem) > 25*time.Millisecond {
-			var ms runtime.MemStats
-			runtime.ReadMemStats(&ms)
+			// runtime/metrics does not stop the world (ReadMemStats waits for a running GC cycle, which
+			// starves this monitor exactly when the heap is exploding)
+			metrics.Read(memSample)
 			lastMem = time.Now()
-			if ms.HeapAlloc > cfg.memLimit {
+			if memSample[0].Value.Kind() == metrics.KindUint64 && memSample[0].Value.Uint64() > cfg.memLimit {
 				return "runaway"
 			}
 		}
@@ -107,6 +108,8 @@ func guarded(cfg watchCfg, c *Case, f func()) string {
 		time.Sleep(time.Millisecond)
 	}
 }
+
+var memSample = []metrics.Sample{{Name: "/memory/classes/heap/objects:bytes"}}
 
 type childOut struct {
 	f *os.File
@@ -275,7 +278,12 @@ func runSoloChild() {
 	cfg := watchCfg{watch: time.Duration(spec.WatchMs) * time.Millisecond, ratio: spec.Ratio, memLimit: uint64(spec.MemLimit)}
 	real := NewReal(rand.New(rand.NewSource(7)), nil)
 	var end string
+	t0 := time.Now()
 	why := guarded(cfg, &spec.Case, func() { end = real.RunCase(&spec.Case.Expr, spec.Case.Env) })
+	if os.Getenv("VERIF_C03_DEBUG") != "" {
+		metrics.Read(memSample)
+		fmt.Fprintf(os.Stderr, "guarded returned %q after %v, heap %d MiB\n", why, time.Since(t0), memSample[0].Value.Uint64()>>20)
+	}
 	res := map[string]any{"kind": "solo", "why": why, "end": end, "pending": pendingRec(real)}
 	if why == "" {
 		discs := real.discs
